@@ -1,4 +1,7 @@
 import Qhttp.Props.C12
+import Qhttp.Lemmas.C13Turn
+import Qhttp.Lemmas.C13Parse
+import Qhttp.Lemmas.C13Run
 /-
   C13 — the proxy relays the upstream response faithfully and maps failures to 502.
 -/
@@ -75,5 +78,541 @@ def holds (env : Env) (c : Cfg) (evs : List PEv) (obs : List Obs) : Bool :=
          (Http.names m.headers).all (fun n => hs.any fun h => lower h.1 == n) &&
          hs.all (fun h => C12.vals h.1 m.headers == C12.vals h.1 hs)) &&
       (if closed then obs.any Obs.isTc else !(obs.any Obs.isTc))
+
+/-! ## Theorems
+
+  Helper lemmas: `Qhttp/Lemmas/C13*.lean` (namespace `Qhttp.C13L`).  `C13L.WOpen s`: the socket's
+  response can still be written (alive, open, connected, nothing closed, no `tc` in the history);
+  `C13L.WShut s`: the library closed the transport; `C13L.Frozen w s`: closed and the wire is `w`.
+  Nothing is assumed about the request side of the socket (a request may be half read).
+
+  Everything below is for EVERY list of chunks (every segmentation of the upstream stream),
+  every `env` (error page, URL oracle) and every proxy state satisfying the stated hypotheses.
+
+  FINDING (model = library, confirmed on the harness): an upstream header line with an empty or
+  blank name (`": v"`, `"  : v"`) is accepted by `Parser::parseHeaderList` and relayed as the line
+  `": v"`, which the strict reader refuses; `holds` is false on
+  `new feed:"GET /a HTTP/1.1<CRLF><CRLF>" turn up:"HTTP/1.1 200 OK<CRLF>: v<CRLF><CRLF>body" turn ackall turn`
+  (see `empty_name_relayed`).  Hence the hypothesis `upOk` of the re-parsing theorems. -/
+
+open C13L
+
+theorem specHead_def (head : Bytes) : specHead head = specHead' head := rfl
+theorem is502Only_def (wire : Bytes) : is502Only wire = is502Only' wire := rfl
+
+/-! ### 6c. the specification's head reader and the library's parser -/
+
+/-- **6c** `Parser::parseResponseHeaders` succeeds exactly when `specHead` does, with the same
+    code and reason; its header map is the insertion of `specHead`'s pairs in line order -/
+theorem specHead_eq (head : Bytes) :
+    Parser.parseResponseHeaders head =
+      (specHead head).map fun x => (x.1, x.2.1, x.2.2.foldl (fun acc e => HeaderMap.insert e.1 e.2 acc) []) :=
+  specHead'_eq head
+
+theorem specHead_none_iff (head : Bytes) :
+    specHead head = none ↔ Parser.parseResponseHeaders head = none := by
+  rw [specHead_eq]; cases specHead head <;> simp
+
+/-- the map is a permutation of the pairs: per name the same values (`C12.vals` sorts them), and
+    no other name -/
+theorem specHead_vals {head : Bytes} {code : Int} {reason : Bytes} {pairs : List (Bytes × Bytes)}
+    (h : specHead head = some (code, reason, pairs)) :
+    ∃ m, Parser.parseResponseHeaders head = some (code, reason, m) ∧ m.Perm pairs ∧
+      (∀ n, C12.vals n m = C12.vals n pairs) ∧
+      (Http.names m).all (fun n => pairs.any fun h => lower h.1 == n) = true := by
+  refine ⟨mapOf pairs, by rw [specHead_eq, h]; rfl, ?_, fun n => vals_mapOf n pairs, names_mapOf pairs⟩
+  simpa using mapOf_perm pairs []
+
+/-! ### 6a. the accumulator -/
+
+/-- **6a** while the bytes accumulated contain no blank line nothing is written (the socket is
+    not touched at all) and `upRead` is everything delivered -/
+theorem accumulate (env : Env) (cs : List Bytes) (st : St) (hp : st.headersParsed = false)
+    (hn : breakOn CRLF2 (st.upRead ++ cs.flatten) = none) :
+    deliverAll env cs st = { st with upRead := st.upRead ++ cs.flatten } :=
+  C13L.accumulate env cs st hp hn
+
+/-- the first blank line does not move when more chunks arrive -/
+theorem first_blank_line_stable {acc head rest : Bytes} (pre post : List Bytes)
+    (h : breakOn CRLF2 (acc ++ pre.flatten) = some (head, rest)) :
+    breakOn CRLF2 (acc ++ (pre ++ post).flatten) = some (head, rest ++ post.flatten) :=
+  C13L.first_blank_line_stable pre post h
+
+/-! ### 6b. the relay is faithful, for every chunking -/
+
+/-- **6b** `relay_faithful`: the socket open for writing, no head relayed yet, no blank line among
+    the bytes already accumulated.  If the accumulated bytes followed by the chunks are
+    `head ++ CRLFCRLF ++ body` (first blank line) and the parser accepts `head`, then for EVERY
+    chunking the client's wire grows by exactly the status line with the upstream's code and reason,
+    one line per entry of the parsed header map, a blank line and `body`; the head counts as
+    relayed, the socket is still open and nothing was closed. -/
+theorem relay_faithful (env : Env) (cs : List Bytes) (st : St) {head body reason : Bytes} {code : Int}
+    {hs : HeaderMap}
+    (ho : WOpen st.sock) (hp : st.headersParsed = false) (hu : breakOn CRLF2 st.upRead = none)
+    (hb : breakOn CRLF2 (st.upRead ++ cs.flatten) = some (head, body))
+    (hq : Parser.parseResponseHeaders head = some (code, reason, hs)) :
+    Obs.wire (deliverAll env cs st).sock.log =
+      Obs.wire st.sock.log ++
+        (lit ['H','T','T','P','/','1','.','0',' '] ++ intText code ++ [SP] ++ reason ++ CRLF ++
+          Sock.headerLines hs ++ CRLF ++ body) ∧
+    (deliverAll env cs st).headersParsed = true ∧ WOpen (deliverAll env cs st).sock ∧
+    (deliverAll env cs st).sock.log.any Obs.isTc = false := by
+  have := deliver_outcome env cs st ho hp hu
+  cases this with
+  | waiting h e => rw [hb] at h; cases h
+  | relayed head' body' code' reason' hs' hb' hp' op wire parsed ws respH initP rest =>
+    rw [hb] at hb'; cases hb'
+    rw [hq] at hp'; cases hp'
+    exact ⟨wire, parsed, op, anyTc_of_logOpen op.logOpen⟩
+  | failed head' body' hb' hp' fr parsed rest =>
+    rw [hb] at hb'; cases hb'
+    rw [hq] at hp'; cases hp'
+
+/-- the special case of the brief: nothing accumulated yet -/
+theorem relay_faithful_fresh (env : Env) (cs : List Bytes) (st : St) {head body reason : Bytes} {code : Int}
+    {hs : HeaderMap}
+    (ho : WOpen st.sock) (hp : st.headersParsed = false) (hu : st.upRead = [])
+    (hb : breakOn CRLF2 cs.flatten = some (head, body))
+    (hq : Parser.parseResponseHeaders head = some (code, reason, hs)) :
+    Obs.wire (deliverAll env cs st).sock.log =
+      Obs.wire st.sock.log ++
+        (lit ['H','T','T','P','/','1','.','0',' '] ++ intText code ++ [SP] ++ reason ++ CRLF ++
+          Sock.headerLines hs ++ CRLF ++ body) ∧
+    (deliverAll env cs st).headersParsed = true ∧ WOpen (deliverAll env cs st).sock ∧
+    (deliverAll env cs st).sock.log.any Obs.isTc = false :=
+  relay_faithful env cs st ho hp (by rw [hu]; rfl) (by rw [hu]; exact hb) hq
+
+/-- prefix version: after any prefix of the chunks the client's wire is a prefix of the final one -/
+theorem relay_prefix (env : Env) (pre post : List Bytes) (st : St) {head body reason : Bytes} {code : Int}
+    {hs : HeaderMap}
+    (ho : WOpen st.sock) (hp : st.headersParsed = false) (hu : breakOn CRLF2 st.upRead = none)
+    (hb : breakOn CRLF2 (st.upRead ++ (pre ++ post).flatten) = some (head, body))
+    (hq : Parser.parseResponseHeaders head = some (code, reason, hs)) :
+    Obs.wire (deliverAll env pre st).sock.log <+: Obs.wire (deliverAll env (pre ++ post) st).sock.log := by
+  obtain ⟨hw, _, _, _⟩ := relay_faithful env (pre ++ post) st ho hp hu hb hq
+  rw [hw]
+  have := deliver_outcome env pre st ho hp hu
+  cases this with
+  | waiting h e => rw [e]; exact ⟨_, rfl⟩
+  | relayed head' body' code' reason' hs' hb' hp' op wire parsed ws respH initP rest =>
+    have h2 := C13L.first_blank_line_stable pre post hb'
+    rw [hb] at h2; cases h2
+    rw [hq] at hp'; cases hp'
+    rw [wire]
+    refine ⟨post.flatten, ?_⟩
+    simp [headOut, List.append_assoc]
+  | failed head' body' hb' hp' fr parsed rest =>
+    have h2 := C13L.first_blank_line_stable pre post hb'
+    rw [hb] at h2; cases h2
+    rw [hq] at hp'; cases hp'
+
+/-- what the upstream head must satisfy for the relayed response to be readable by the strict
+    reader: no CR in the reason; every `name: value` pair has a non-empty name, no CR in name or value -/
+def upOk (head : Bytes) : Bool :=
+  match specHead head with
+  | none => true
+  | some (_, reason, pairs) => !containsByte CR reason && pairs.all pairOk
+
+/-- the relayed bytes re-parse: the strict reader finds the status line, which reads back as the
+    upstream's code and reason, the parsed header map entry by entry, and the body -/
+theorem relay_reparses {head body reason : Bytes} {code : Int} {hs : HeaderMap}
+    (hq : Parser.parseResponseHeaders head = some (code, reason, hs)) (hok : upOk head = true) :
+    ∃ m, Http.parse (lit ['H','T','T','P','/','1','.','0',' '] ++ intText code ++ [SP] ++ reason ++ CRLF ++
+          Sock.headerLines hs ++ CRLF ++ body) = some m ∧
+      Http.statusLine m.start = some { code := code.natAbs, reason := reason } ∧
+      ((code.natAbs : Nat) : Int) = code ∧ m.headers = hs ∧ m.body = body := by
+  rw [specHead_eq] at hq
+  unfold upOk at hok
+  cases hs' : specHead head with
+  | none => rw [hs'] at hq; cases hq
+  | some x =>
+    obtain ⟨c, r, pairs⟩ := x
+    rw [hs'] at hq hok
+    simp only [Option.map_some, Option.some.injEq, Prod.mk.injEq] at hq
+    obtain ⟨rfl, rfl, rfl⟩ := hq
+    simp only [Bool.and_eq_true, Bool.not_eq_true', Http.containsByte_eq_false] at hok
+    have hc := code_range_of_specHead' hs'
+    have hc0 : 0 ≤ c := by omega
+    have hw := hdrWf_mapOf (colon_free_of_specHead' hs') hok.2
+    obtain ⟨h1, h2⟩ := parse_relayed body hc0 hok.1 hw
+    exact ⟨_, h1, h2, Int.natAbs_of_nonneg hc0, rfl, rfl⟩
+
+/-! ### 7. failures become exactly one 502; afterwards the wire never changes -/
+
+/-- the bytes `writeError(502)` puts on the wire on a socket whose header map was `H`
+    (`C09L.writeError_state`): status line, `H` with `Content-Length`/`Content-Type` replaced,
+    blank line, the error page -/
+theorem err502_def (env : Env) (H : HeaderMap) :
+    err502 env H = C09L.errStart 502 ++ CRLF ++
+      Sock.headerLines (C09L.errHeaders H (natDigits (C09L.errBody env 502).length)) ++ CRLF ++
+      C09L.errBody env 502 := rfl
+
+/-- **7a** the upstream connection is refused or ends before a head was relayed: exactly the 502
+    is written and the transport is closed -/
+theorem fault_502_error (env : Env) (st : St) (ho : WOpen st.sock) (hp : st.headersParsed = false) :
+    Obs.wire (onUpstreamError env st).sock.log = Obs.wire st.sock.log ++ err502 env st.sock.respHeaders ∧
+    WShut (onUpstreamError env st).sock ∧ (onUpstreamError env st).sock.log.any Obs.isTc = true := by
+  obtain ⟨⟨h1, w1⟩, _⟩ := onUpstreamError_502 env ho hp
+  exact ⟨w1, h1, anyTc_of_logShut h1.logShut⟩
+
+/-- after a head was relayed an upstream error only closes the connection -/
+theorem fault_close (env : Env) (st : St) (ho : WOpen st.sock) (hp : st.headersParsed = true) :
+    Obs.wire (onUpstreamError env st).sock.log = Obs.wire st.sock.log ∧
+    WShut (onUpstreamError env st).sock ∧ (onUpstreamError env st).sock.log.any Obs.isTc = true := by
+  obtain ⟨⟨h1, w1⟩, _⟩ := onUpstreamError_close env ho hp
+  exact ⟨w1, h1, anyTc_of_logShut h1.logShut⟩
+
+/-- **7b** a complete head that `parseResponseHeaders` rejects: the same bytes, for every
+    chunking, however many chunks follow; no head counts as relayed -/
+theorem fault_502_badhead (env : Env) (cs : List Bytes) (st : St) {head body : Bytes}
+    (ho : WOpen st.sock) (hp : st.headersParsed = false) (hu : breakOn CRLF2 st.upRead = none)
+    (hb : breakOn CRLF2 (st.upRead ++ cs.flatten) = some (head, body))
+    (hq : Parser.parseResponseHeaders head = none) :
+    Obs.wire (deliverAll env cs st).sock.log = Obs.wire st.sock.log ++ err502 env st.sock.respHeaders ∧
+    WShut (deliverAll env cs st).sock ∧ (deliverAll env cs st).headersParsed = false := by
+  have := deliver_outcome env cs st ho hp hu
+  cases this with
+  | waiting h e => rw [hb] at h; cases h
+  | relayed head' body' code' reason' hs' hb' hp' op wire parsed ws respH initP rest =>
+    rw [hb] at hb'; cases hb'
+    rw [hq] at hp'; cases hp'
+  | failed head' body' hb' hp' fr parsed rest => exact ⟨fr.wire, fr.shut, parsed⟩
+
+/-- **7c** once the transport is closed the wire NEVER changes: upstream data, upstream errors,
+    event-loop turns, client segments and acknowledgements all leave `Obs.wire` as it is and the
+    socket closed (or deleted: a deleted socket is still `WShut`) -/
+theorem wire_frozen (env : Env) (c : Cfg) (st : St) (hs : WShut st.sock) :
+    (∀ chunk, WShut (onUpstreamReadyRead env st chunk).sock ∧
+        Obs.wire (onUpstreamReadyRead env st chunk).sock.log = Obs.wire st.sock.log) ∧
+    (∀ cs, WShut (deliverAll env cs st).sock ∧ Obs.wire (deliverAll env cs st).sock.log = Obs.wire st.sock.log) ∧
+    (WShut (onUpstreamError env st).sock ∧ Obs.wire (onUpstreamError env st).sock.log = Obs.wire st.sock.log) ∧
+    (WShut (Proxy.turn env c st).sock ∧ Obs.wire (Proxy.turn env c st).sock.log = Obs.wire st.sock.log) ∧
+    (WShut (marker st).sock ∧ Obs.wire (marker st).sock.log = Obs.wire st.sock.log) ∧
+    (∀ e, pevOk e = true → WShut (Proxy.step env c st e).sock ∧
+        Obs.wire (Proxy.step env c st e).sock.log = Obs.wire st.sock.log) ∧
+    (∀ evs : List PEv, (∀ e ∈ evs, pevOk e = true) → WShut (evs.foldl (Proxy.step env c) st).sock ∧
+        Obs.wire (evs.foldl (Proxy.step env c) st).sock.log = Obs.wire st.sock.log) := by
+  have h : Frozen (Obs.wire st.sock.log) st.sock := ⟨hs, rfl⟩
+  refine ⟨fun chunk => ?_, fun cs => ?_, ?_, ?_, ?_, fun e he => ?_, fun evs he => ?_⟩
+  · exact ⟨(frozen_onUpstreamReadyRead env h chunk).shut, (frozen_onUpstreamReadyRead env h chunk).wire⟩
+  · exact ⟨(frozen_deliverAll env cs h).shut, (frozen_deliverAll env cs h).wire⟩
+  · exact ⟨(frozen_onUpstreamError env h).shut, (frozen_onUpstreamError env h).wire⟩
+  · exact ⟨(frozen_turn env c h).shut, (frozen_turn env c h).wire⟩
+  · exact ⟨(frozen_marker h).shut, (frozen_marker h).wire⟩
+  · exact ⟨(frozen_pstep env c h he).shut, (frozen_pstep env c h he).wire⟩
+  · exact ⟨(frozen_run env c evs h he).shut, (frozen_run env c evs h he).wire⟩
+
+/-- the events `wire_frozen` covers: `.up`, `.upClose`, `.turn`, and the socket events `.feed`,
+    `.ack n`, `.ackAll`, `.turn` -/
+example : pevOk (.up [1]) = true ∧ pevOk .upClose = true ∧ pevOk .turn = true ∧
+    pevOk (.sock (.feed [1])) = true ∧ pevOk (.sock (.ack 3)) = true ∧ pevOk (.sock .ackAll) = true ∧
+    pevOk (.sock .turn) = true := by decide
+
+/-- **7d** the 502 written on a socket whose header map was empty (as it is until the proxy relays
+    a head) is exactly one 502 response: `is502Only` accepts it, for every error page -/
+theorem is502Only_502 (env : Env) : is502Only (err502 env []) = true := is502Only_err502 env
+
+/-- what the strict reader sees of it -/
+theorem parse_502 (env : Env) :
+    Http.parse (err502 env []) = some
+      { start := C09L.errStart 502,
+        headers := [(Sock.CONTENT_LENGTH, natDigits (C09L.errBody env 502).length),
+                    (Sock.CONTENT_TYPE, Sock.TEXT_HTML)],
+        body := C09L.errBody env 502 } := C13L.parse_502 env
+
+/-! ### non-vacuity -/
+
+section examples
+
+def exChunks : List Bytes :=
+  [lit ['H','T','T','P','/','1','.','1',' ','2','0','0',' ','O','K','\r','\n','A',':',' ','b','\r'],
+   lit ['\n','a',':','c','\r','\n','\r'], lit ['\n','b','o'], lit ['d','y','\r','\n','\r','\n','x']]
+
+def exHead : Bytes :=
+  lit ['H','T','T','P','/','1','.','1',' ','2','0','0',' ','O','K','\r','\n','A',':',' ','b','\r','\n','a',':','c']
+
+/-- the hypotheses of `relay_faithful_fresh` on the fresh state (chunk boundaries inside the
+    CRLFCRLF, a second CRLFCRLF in the body, a repeated header name) -/
+example : WOpen ({} : St).sock ∧ ({} : St).headersParsed = false ∧ ({} : St).upRead = [] ∧
+    breakOn CRLF2 exChunks.flatten = some (exHead, lit ['b','o','d','y','\r','\n','\r','\n','x']) ∧
+    Parser.parseResponseHeaders exHead =
+      some (200, lit ['O','K'], [(lit ['a'], lit ['c']), (lit ['A'], lit ['b'])]) ∧
+    upOk exHead = true :=
+  ⟨wopen_default, rfl, rfl, by decide, by decide, by decide⟩
+
+/-- and the model evaluated on it -/
+example : Obs.wire (deliverAll C01.envT exChunks {}).sock.log =
+    lit ['H','T','T','P','/','1','.','0',' ','2','0','0',' ','O','K','\r','\n','a',':',' ','c','\r','\n',
+         'A',':',' ','b','\r','\n','\r','\n','b','o','d','y','\r','\n','\r','\n','x'] := by decide +kernel
+
+/-- a head the parser rejects (code 99) -/
+example : Parser.parseResponseHeaders (lit ['H','T','T','P','/','1','.','1',' ','9','9',' ','O','K']) = none ∧
+    specHead (lit ['H','T','T','P','/','1','.','1',' ','9','9',' ','O','K']) = none := by decide
+
+/-- FINDING (see the file comment): a header line with an empty name is accepted by the library's
+    parser and by `specHead`, relayed as `": v"`, and the strict reader refuses the result -/
+theorem empty_name_relayed :
+    let head : Bytes := lit ['H','T','T','P','/','1','.','1',' ','2','0','0',' ','O','K','\r','\n',':',' ','v']
+    Parser.parseResponseHeaders head = some (200, lit ['O','K'], [([], lit ['v'])]) ∧
+    specHead head = some (200, lit ['O','K'], [([], lit ['v'])]) ∧ upOk head = false ∧
+    Http.parse (headOut 200 (lit ['O','K']) [([], lit ['v'])] ++ lit ['b']) = none := by
+  decide +kernel
+
+end examples
+
+/-! ### 8. the executable predicate on every scripted-upstream history of the model -/
+
+theorem upstreamSent_def : ∀ (evs : List PEv) (c : Bool), upstreamSent evs c = upstreamSent' evs c := by
+  intro evs
+  induction evs with
+  | nil => intro c; rfl
+  | cons e r ih =>
+    intro c
+    cases e with
+    | sock ev => cases c <;> simp only [upstreamSent, upstreamSent', ih]
+    | turn => cases c <;> simp only [upstreamSent, upstreamSent', ih]
+    | up b => cases c <;> simp only [upstreamSent, upstreamSent', ih]
+    | upClose => cases c <;> simp only [upstreamSent, upstreamSent', ih]
+
+theorem delivered_def (evs : List PEv) : delivered evs = delivered' evs := rfl
+
+/-- the scenario shape of `gen_C13`: `new; feed req; turn`, then upstream writes, the upstream's
+    close, event-loop turns and acknowledgements in any order, except that the upstream server
+    writes nothing between its close and the next turn (with `refuse` nothing is excluded) -/
+def shapeOk (refuse : Bool) : List PEv → Bool
+  | .sock .new :: .sock (.feed _) :: .turn :: rest => restOk (if refuse then .closed else .open) rest
+  | _ => false
+
+/-- the hypothesis on the upstream stream (see the finding in the file comment): if it contains a
+    complete head that `specHead` reads, its reason has no CR and every header pair has a
+    non-empty name and no CR in name or value -/
+def upstreamOk (evs : List PEv) : Bool :=
+  match breakOn CRLF2 (upstreamSent evs false).1 with
+  | none => true
+  | some (head, _) => upOk head
+
+theorem clientStream_rest : ∀ (r : List PEv) (ph : UpPh), restOk ph r = true → C12.clientStream r = [] := by
+  intro r
+  induction r with
+  | nil => intro _ _; rfl
+  | cons x r ih =>
+    intro ph h
+    cases x with
+    | sock ev =>
+      cases ev <;> first | (simp only [restOk] at h; simpa [C12.clientStream] using ih ph h) | (simp [restOk] at h)
+    | turn => simpa [C12.clientStream] using ih _ h
+    | up b =>
+      simp only [restOk, Bool.and_eq_true] at h
+      simpa [C12.clientStream] using ih _ h.2
+    | upClose => simpa [C12.clientStream] using ih _ h
+
+theorem accepted_of_expect {env : Env} {req head : Bytes} (h1 : C01.headOf req = some head)
+    (h2 : (C01.expect env head).isSome = true) : Accepted env req := by
+  unfold C01.headOf at h1
+  cases hb : breakOn CRLF2 req with
+  | none => rw [hb] at h1; cases h1
+  | some x =>
+    obtain ⟨hd, rest⟩ := x
+    rw [hb] at h1
+    simp only [Option.map_some, Option.some.injEq] at h1
+    subst h1
+    unfold C01.expect at h2
+    cases hp : Parser.parseRequestHeaders hd with
+    | none => rw [hp] at h2; cases h2
+    | some rh =>
+      rw [hp] at h2
+      dsimp only at h2
+      cases hu : env.url rh.rawPath with
+      | none => rw [hu] at h2; cases h2
+      | some pq =>
+        obtain ⟨p, q⟩ := pq
+        exact ⟨hd, rest, rh, p, q, hb, hp, hu⟩
+
+/-- **8** `holds_run`: the predicate the driver evaluates on implementation traces is true on the
+    run of the model for EVERY history of the shape above — every client request (accepted or
+    not, with or without body bytes), every upstream byte stream in every segmentation and with
+    every interleaving of turns and acknowledgements, upstream close at any point, connection
+    refused or not — under `upstreamOk` (explicit and necessary: `empty_name_relayed`). -/
+theorem holds_run (env : Env) (c : Cfg) (evs : List PEv) (hs : shapeOk c.refuse evs = true)
+    (hu : (c.refuse || upstreamOk evs) = true) :
+    holds env c evs (Proxy.run env c evs).sock.log = true := by
+  unfold shapeOk at hs
+  split at hs
+  · rename_i req rest
+    unfold holds
+    have hcs : C12.clientStream (.sock .new :: .sock (.feed req) :: .turn :: rest) = req := by
+      have := clientStream_rest rest _ hs
+      simp [C12.clientStream] at this ⊢
+      exact this
+    rw [hcs]
+    dsimp only
+    -- the request is not accepted, or not everything was delivered: nothing is claimed
+    have hnt : (C12.nTurns (.sock .new :: .sock (.feed req) :: .turn :: rest) == 0) = false := by
+      simp [C12.nTurns]
+    rw [hnt]
+    cases hacc : (match C01.headOf req with
+        | some h => (C01.expect env h).isSome
+        | none => false) with
+    | false => simp
+    | true =>
+    cases hdl : delivered (.sock .new :: .sock (.feed req) :: .turn :: rest) with
+    | false => simp
+    | true =>
+    simp only [Bool.not_true, Bool.or_self, Bool.false_eq_true, if_false]
+    -- the run
+    have ha : Accepted env req := by
+      cases h1 : C01.headOf req with
+      | none => rw [h1] at hacc; cases hacc
+      | some head => rw [h1] at hacc; exact accepted_of_expect h1 hacc
+    have hd : dl false rest = true := by
+      have := dl_of_delivered' (.sock .new :: .sock (.feed req) :: .turn :: rest)
+      rw [← delivered_def, hdl] at this
+      simpa [dl] using this
+    obtain ⟨f1, f2⟩ := run_final env c req rest ha hs hd
+    generalize (Proxy.run env c (.sock .new :: .sock (.feed req) :: .turn :: rest)).sock = s at f1 f2
+    by_cases hrf : c.refuse = true
+    · rw [if_pos hrf, is502Only_def, (f1 hrf).wire]
+      exact is502Only_err502 env
+    · rw [if_neg hrf]
+      have hrf' : c.refuse = false := by simpa using hrf
+      have fin := f2 hrf'
+      have hus : upstreamSent (.sock .new :: .sock (.feed req) :: .turn :: rest) false =
+          upstreamSent' rest true := by
+        rw [upstreamSent_def]; rfl
+      have hok : upstreamOk (.sock .new :: .sock (.feed req) :: .turn :: rest) = true := by
+        simpa [hrf'] using hu
+      unfold upstreamOk at hok
+      rw [hus] at hok ⊢
+      generalize upstreamSent' rest true = sc at fin hok
+      obtain ⟨sent, closed⟩ := sc
+      dsimp only at fin hok ⊢
+      unfold FinalP at fin
+      cases hb : breakOn CRLF2 sent with
+      | none =>
+        rw [hb] at fin
+        dsimp only at fin ⊢
+        cases closed with
+        | true =>
+          simp only [if_true] at fin ⊢
+          rw [is502Only_def, fin]; exact is502Only_err502 env
+        | false =>
+          simp only [Bool.false_eq_true, if_false] at fin ⊢
+          rw [fin]; rfl
+      | some hbdy =>
+        obtain ⟨head, body⟩ := hbdy
+        rw [hb] at fin hok
+        dsimp only at fin hok ⊢
+        have hsp := specHead_eq head
+        cases hsh : specHead head with
+        | none =>
+          rw [hsh] at hsp
+          simp only [Option.map_none] at hsp
+          rw [hsp] at fin
+          dsimp only at fin ⊢
+          rw [is502Only_def, fin]; exact is502Only_err502 env
+        | some x =>
+          obtain ⟨code, reason, pairs⟩ := x
+          rw [hsh] at hsp
+          simp only [Option.map_some] at hsp
+          rw [hsp] at fin
+          dsimp only at fin ⊢
+          obtain ⟨hw, hcl⟩ := fin
+          unfold upOk at hok
+          rw [hsh] at hok
+          simp only [Bool.and_eq_true, Bool.not_eq_true', Http.containsByte_eq_false] at hok
+          have hc := code_range_of_specHead' hsh
+          have hwf := hdrWf_mapOf (colon_free_of_specHead' hsh) hok.2
+          have hrc := relayCheck_relayed (code := code) (reason := reason) (pairs := pairs) body
+            (by omega) hok.1 hwf
+          rw [Bool.and_eq_true]
+          constructor
+          · rw [hw]; exact hrc
+          · cases closed with
+            | true =>
+              simp only [if_true] at hcl ⊢
+              exact anyTc_of_logShut hcl.logShut
+            | false =>
+              simp only [Bool.false_eq_true, if_false] at hcl ⊢
+              rw [anyTc_of_logOpen hcl.logOpen]; rfl
+  · cases hs
+
+/-! ### non-vacuity of `holds_run` -/
+
+section examples8
+
+def exEnv : Env := { C01.envT with errPage := fun _ _ => C01.str "<h1>502</h1>" }
+
+def exReq : Bytes := C01.str "POST /a?x=1 HTTP/1.1\r\nHost: h\r\nContent-Length: 5\r\n\r\nabc"
+
+/-- head split inside the CRLFCRLF, repeated header name, partial acknowledgements, upstream close,
+    late upstream data after the close was delivered -/
+def exRelay : List PEv :=
+  [.sock .new, .sock (.feed exReq), .turn,
+   .up (C01.str "HTTP/1.1 404 Not Found\r\nA: b\r\na: c\r"), .turn, .sock (.ack 3),
+   .up (C01.str "\n\r"), .up (C01.str "\nbo"), .turn, .sock (.ack 7), .up (C01.str "dy\r\n\r\nx"), .upClose, .turn,
+   .up (C01.str "late"), .sock .ackAll, .turn]
+
+/-- a head the parser rejects (code 99), then more data and the close -/
+def exBad : List PEv :=
+  [.sock .new, .sock (.feed exReq), .turn,
+   .up (C01.str "HTTP/1.1 99 Low\r\n\r\nzz"), .turn, .up (C01.str "HTTP/1.1 200 OK\r\n\r\n"), .turn,
+   .upClose, .turn, .sock .ackAll, .turn]
+
+/-- the upstream closes before a complete head -/
+def exShort : List PEv :=
+  [.sock .new, .sock (.feed exReq), .turn, .up (C01.str "HTTP/1.1 200 OK\r\nA: b\r\n\r"), .turn, .upClose, .turn]
+
+/-- nothing listens upstream -/
+def exRefused : List PEv :=
+  [.sock .new, .sock (.feed exReq), .turn, .up (C01.str "HTTP/1.1 200 OK\r\n\r\n"), .upClose,
+   .up (C01.str "x"), .turn, .sock .ackAll, .turn]
+
+/-- the hypotheses of `holds_run` hold on these histories, the request is accepted and everything
+    was delivered (so `holds` does not return `true` trivially) -/
+example : shapeOk false exRelay = true ∧ upstreamOk exRelay = true ∧ delivered exRelay = true ∧
+    shapeOk false exBad = true ∧ upstreamOk exBad = true ∧ delivered exBad = true ∧
+    shapeOk false exShort = true ∧ upstreamOk exShort = true ∧ delivered exShort = true ∧
+    shapeOk true exRefused = true ∧ delivered exRefused = true ∧
+    ((C01.headOf exReq).bind (C01.expect exEnv)).isSome = true := by decide +kernel
+
+/-- the relayed response as the client receives it -/
+example : Obs.wire (Proxy.run exEnv {} exRelay).sock.log =
+    C01.str "HTTP/1.0 404 Not Found\r\na: c\r\nA: b\r\n\r\nbody\r\n\r\nx" ∧
+    (Proxy.run exEnv {} exRelay).sock.log.any Obs.isTc = true := by decide +kernel
+
+/-- the 502 as the client receives it, and nothing after it -/
+example : Obs.wire (Proxy.run exEnv {} exBad).sock.log =
+    C01.str "HTTP/1.0 502 BAD GATEWAY\r\nContent-Length: 12\r\nContent-Type: text/html\r\n\r\n<h1>502</h1>" ∧
+    Obs.wire (Proxy.run exEnv {} exShort).sock.log = Obs.wire (Proxy.run exEnv {} exBad).sock.log ∧
+    Obs.wire (Proxy.run exEnv { refuse := true } exRefused).sock.log =
+      Obs.wire (Proxy.run exEnv {} exBad).sock.log := by decide +kernel
+
+/-- the executable predicate evaluated on these runs (also given by `holds_run`) -/
+example : holds exEnv {} exRelay (Proxy.run exEnv {} exRelay).sock.log = true :=
+  holds_run exEnv {} exRelay (by decide +kernel) (by decide +kernel)
+example : holds exEnv {} exRelay (Proxy.run exEnv {} exRelay).sock.log = true ∧
+    holds exEnv {} exBad (Proxy.run exEnv {} exBad).sock.log = true ∧
+    holds exEnv {} exShort (Proxy.run exEnv {} exShort).sock.log = true ∧
+    holds exEnv { refuse := true } exRefused (Proxy.run exEnv { refuse := true } exRefused).sock.log = true := by
+  decide +kernel
+
+/-- `holds` is not trivially true on this shape: a history outside `restOk` (the upstream server
+    "writes" between its close and the next turn: the model delivers it, the real server cannot)
+    fails it -/
+example :
+    let evs : List PEv := [.sock .new, .sock (.feed exReq), .turn,
+      .up (C01.str "HTTP/1.1 200 OK\r\n\r\nbo"), .upClose, .up (C01.str "dy"), .turn]
+    shapeOk false evs = false ∧ holds exEnv {} evs (Proxy.run exEnv {} evs).sock.log = false := by
+  decide +kernel
+
+/-- and `upstreamOk` is necessary: the empty header name -/
+example :
+    let evs : List PEv := [.sock .new, .sock (.feed exReq), .turn,
+      .up (C01.str "HTTP/1.1 200 OK\r\n: v\r\n\r\nbody"), .turn]
+    shapeOk false evs = true ∧ upstreamOk evs = false ∧
+    holds exEnv {} evs (Proxy.run exEnv {} evs).sock.log = false := by
+  decide +kernel
+
+end examples8
 
 end Qhttp.C13
